@@ -644,19 +644,9 @@ theorem enterClass_step {proj : Project} {rank : List Nat} (wf : WFacts proj ran
       (List.getElem?_eq_some_iff.1 ho).1
     have : Names.expandName (envOf s) ctx b = some p := hp
     rw [this] at hx; cases hx
-  have hcrash : (bs.map (fun b => Names.expandName (envOf s) ctx b)).any (baseCrash (envOf s)) = false := by
-    rw [Bool.eq_false_iff]
-    intro h
-    simp only [List.any_eq_true, List.mem_map] at h
-    obtain ⟨x, ⟨b, _, rfl⟩, hx⟩ := h
-    cases hxe : Names.expandName (envOf s) ctx b with
-    | none => simp [hxe, baseCrash] at hx
-    | some p =>
-      simp only [hxe, baseCrash, beq_iff_eq] at hx
-      exact (findObject_nocrash wf hI p).2 hx
   obtain ⟨ci, he⟩ : ∃ ci : List (Nat × ClsInfo), enterClass ctx n bs s = { addObj s .cls n ctx with cinfo := ci } := by
     unfold enterClass
-    simp only [hexp, hcrash, Bool.or_false, markBad_false]
+    simp only [hexp, markBad_false]
     exact ⟨_, rfl⟩
   rw [he]
   exact ⟨⟨hb1, addObj_frame proj hc.pathc hb1⟩, hb1⟩
